@@ -2205,6 +2205,29 @@ def arith_edge_cases(ctx):
     ctx.dist["65536+ consecutive stuck measurements"] += 1
     return cases
 
+def isaac_counter_extreme_cases(ctx, rng):
+    """states that only a very long history reaches — ISAAC's a / b / c (block counter) fields at all-ones — injected through the
+    serde image of a real generator; followed by three blocks of output"""
+    inj, cases = [], []
+    for g in ("IsaacRng", "Isaac64Rng"):
+        inj.append([f"new 0 {g} seed {rand_bytes(rng, 32).hex()}", f"{native(g)} 0", "ser 0"])
+    oi = ctx.real("images for counter-extreme states", inj)
+    for c0, o in zip(inj, oi):
+        g = c0[0].split()[2]
+        if o[2] in ("unsupported", "panic"):
+            continue
+        img = bytearray(bytes.fromhex(o[2]))
+        wsz = 4 if g == "IsaacRng" else 8
+        for fields in ((1, 1, 1), (0, 0, 1), (1, 0, 0), (0, 1, 0)):        # a, b, c at all-ones
+            b = bytearray(img)
+            for k, on in enumerate(fields):
+                if on:
+                    off = len(b) - (3 - k) * wsz
+                    b[off:off + wsz] = b"\xff" * wsz
+            cases.append([f"de 0 {g} {bytes(b).hex()}", f"fill 0 {3 * 256 * wsz}", "u32 0", "u64 0"])
+            ctx.dist[f"{g}:counter fields at maximum"] += 1
+    return cases
+
 def corpus_C18(ctx, serde_free=True):
     rng = random.Random(ctx.seed * 7919 + 18)
     cases = []
@@ -2236,12 +2259,14 @@ def corpus_C18(ctx, serde_free=True):
         cases.append([f"timer 0 {rd_hex([t0, (t0 + 9) & MASK64, 5, 7, (t0 + 50) & MASK64, (t0 + 70) & MASK64])}", "jit 1 0",
                       "stats 1 0", "stats 1 1"])
     cases += arith_edge_cases(ctx)
+    # serde-only cases (compared between the configurations that have the feature)
+    cases += isaac_counter_extreme_cases(ctx, rng)
     return cases
 
 def tie_C18(ctx):
     cases = corpus_C18(ctx)
     base = ctx.real("corpus in the tie profile (opt 2, overflow checks + debug assertions on, serde on)", cases)
-    configs = [("release", False)] if not ctx.thorough else \
+    configs = [("release", False), ("release", True)] if not ctx.thorough else \
         [("dev", True), ("dev", False), ("o0nochk", True), ("o0nochk", False), ("release", True), ("release", False),
          ("o3chk", True), ("o3chk", False)]
     digest = lambda outs: hashlib.sha256("\n".join("\n".join(o) for o in outs).encode()).hexdigest()
@@ -2268,6 +2293,8 @@ def tie_C18(ctx):
         d = digest(outs)
         ctx.notes.append(f"corpus digest in {name}: {d[:16]}")
         for c, a, b in zip(cases, base, outs):
+            if serde is False and any(l.startswith(("de ", "ser ", "rt ", "rth ")) for l in c):
+                continue              # the case needs the serde feature
             if a != b:
                 k = first_diff(a, b)
                 if "blocked" in a[:k + 1]:
